@@ -18,7 +18,7 @@ func StdScalarSetUniformBytes(s interface{}, x []byte) (interface{}, error) {
 	if len(x) != 64 {
 		return nil, errf("edwards25519: invalid SetUniformBytes input length")
 	}
-	vGhostSet(s, "sc", vUFN("sc_reduce", 32, x))
+	vGhostSet(s, "sc", scReduceTerm(x))
 	return s, nil
 }
 
@@ -31,7 +31,7 @@ func StdScalarSetBytesWithClamping(s interface{}, x []byte) (interface{}, error)
 	wide[0] &= 248
 	wide[31] &= 63
 	wide[31] |= 64
-	vGhostSet(s, "sc", vUFN("sc_reduce", 32, wide))
+	vGhostSet(s, "sc", scReduceTerm(wide))
 	return s, nil
 }
 
@@ -63,7 +63,7 @@ func StdScalarSetCanonicalBytes(s interface{}, x []byte) (interface{}, error) {
 }
 
 func StdScalarMultiplyAdd(s, x, y, z interface{}) interface{} {
-	vGhostSet(s, "sc", vUFN("sc_muladd", 32, scBytesOf(x), scBytesOf(y), scBytesOf(z)))
+	vGhostSet(s, "sc", scMulAddTerm(scBytesOf(x), scBytesOf(y), scBytesOf(z)))
 	return s
 }
 
